@@ -117,11 +117,49 @@ class Graph(object):
         self.hook = hook     # hook(bb, stmt_index, stmt) -> bool | None: value of a non-constant flag definition
         self.callhook = callhook   # callhook(bb, term) -> bool | None: value of a call result stored in a flag
         self.swhook = swhook       # swhook(bb) -> iterable of allowed target blocks | None
+        self.alias = {}      # local or (local, field) that always holds a copy of a pinned (never reassigned) flag -> flag index
+        self._aliases()
         self.node_of = {}
         self.nodes = []      # (bb, valuation)
         self.succ = []
         self.edge_label = {}
         self._build(init)
+
+    def _aliases(self):
+        """copies of a pinned captured flag: `x = copy (_1.flag)`, and the same field of an environment built from such a copy
+        (a helper merged into this body receives the flag as its own captured variable)"""
+        keys = [(i, f) for i, f in enumerate(self.flags) if isinstance(f, tuple) and f in self.pinned]
+        if not keys:
+            return
+        body = self.body
+        defs = {}
+        for b in body.blocks:
+            if b.cleanup:
+                continue
+            for s in b.stmts:
+                if s.kind == "assign" and s.place.is_local():
+                    defs.setdefault(s.place.local, []).append(s)
+        for i, f in keys:
+            self.alias[f] = i
+        grew = True
+        while grew:
+            grew = False
+            for l, ds in defs.items():
+                if l in self.alias or l in self.flags or len(ds) != 1:
+                    continue
+                s = ds[0]
+                if s.rv.k == "use" and s.rv.ops and s.rv.ops[0].place is not None:
+                    pl = s.rv.ops[0].place
+                    fs = pl.fields()
+                    key = pl.local if pl.is_local() else ((pl.local, fs[-1]) if fs and len(fs) == 1 else None)
+                    if key in self.alias:
+                        self.alias[l] = self.alias[key]
+                        grew = True
+                elif s.rv.k == "agg" and s.rv.j.get("ak") in ("coroutine", "closure"):
+                    for fname, op in zip(s.rv.j.get("fields", []), s.rv.ops):
+                        if op.place is not None and op.place.is_local() and op.place.local in self.alias and (l, fname) not in self.alias:
+                            self.alias[(l, fname)] = self.alias[op.place.local]
+                            grew = True
 
     def _flag_effects(self, blk, val):
         """valuation after executing the statements of blk"""
@@ -190,6 +228,8 @@ class Graph(object):
         while seen < 4:
             if l in self.flags:
                 return (self.flags.index(l), neg)
+            if l in self.alias:
+                return (self.alias[l], neg)
             d = None
             for s in reversed(blk.stmts):
                 if s.kind == "assign" and s.place.is_local() and s.place.local == l:
@@ -204,12 +244,16 @@ class Graph(object):
                 key = (d.rv.place.local, fs[-1]) if fs else None
                 if key in self.flags:
                     return (self.flags.index(key), "tag")
+                if key in self.alias:
+                    return (self.alias[key], "tag")
             if d.rv.k == "use" and d.rv.ops[0].place is not None and not d.rv.ops[0].place.is_local():
                 pl = d.rv.ops[0].place
                 fs = pl.fields()
                 key = (pl.local, fs[-1]) if fs else None
                 if key in self.flags:
                     return (self.flags.index(key), neg)
+                if key in self.alias:
+                    return (self.alias[key], neg)
                 return None
             if d.rv.k == "use" and d.rv.ops[0].place is not None and d.rv.ops[0].place.is_local():
                 l = d.rv.ops[0].place.local
@@ -595,8 +639,12 @@ class Analyzer(object):
         return False
 
     def _field(self, e, name):
-        if e == ("env",) and self._canon:
-            name = self._canon.get(name, name)
+        if self._canon:
+            b0 = e
+            while b0[0] in ("deref", "ref") and len(b0) > 1:
+                b0 = b0[1]
+            if b0 == ("env",):      # a captured variable, read directly or through the closure reference
+                name = self._canon.get(name, name)
         # simplifications
         if e[0] == "agg":
             for n, v in e[2]:
